@@ -4,8 +4,8 @@ from __future__ import annotations
 from .. import calg, jmodel as J
 from ..core import AnalysisError
 from ..cskel import Skel
-from ..odemodel import model, Y, YDOT, FILE
-from ..valueflow import as_map, lower, match, V, show, simp, prefix_map, norm_bv
+from ..odemodel import model, Y, YDOT, FILE, not_understood
+from ..valueflow import as_map, lower, match, V, show, simp, prefix_map, norm_bv, walk
 
 EXPLANATION = (
     "Rules over the emission sites of TemplateLoader._prepare_ode_content (use-def reconstruction of every store "
@@ -37,6 +37,41 @@ CONFIGS = [
 
 def where(site):
     return (FILE, site.line)
+
+
+def flag_understood(m, v) -> bool:
+    """v is a truth value computed from the heating / cooling lists alone (len, bool, comparisons with constants, and / or / not,
+    conditional expressions): the analysis can tell whether it is "the network has a thermal process" (OdeModel.is_has_thermal)"""
+    v = simp(v)
+    if v in (m.HEAT, m.COOL) or v[0] == "const":
+        return True
+    if v[0] == "call" and v[1][0] == "global" and v[1][1] in ("len", "bool", "int", "any", "all") and not v[3]:
+        return all(flag_understood(m, a) for a in v[2])
+    if v[0] in ("list", "tuple"):
+        return all(flag_understood(m, a) for a in v[1])
+    if v[0] == "cmp":
+        return all(flag_understood(m, a) for a in v[2])
+    if v[0] == "bool":
+        return all(flag_understood(m, a) for a in v[2])
+    if v[0] == "unop":
+        return flag_understood(m, v[2])
+    if v[0] == "binop":
+        return flag_understood(m, v[2]) and flag_understood(m, v[3])
+    if v[0] in ("ifexp", "phi"):
+        return all(flag_understood(m, a) for a in v[1:4])
+    return False
+
+
+def size_understood(m, v) -> bool:
+    """v is arithmetic over the number of species, integer constants and thermal flags the analysis can read"""
+    v = simp(v)
+    if m.is_n_spec(v) or m.is_n_eqns(v) or (v[0] == "const" and isinstance(v[1], (int, bool))):
+        return True
+    if v[0] == "binop" and v[1] in ("Add", "Sub", "Mult"):
+        return size_understood(m, v[2]) and size_understood(m, v[3])
+    if v[0] == "call" and v[1] in (("global", "max"), ("global", "min")) and not v[3]:
+        return all(size_understood(m, a) for a in v[2])
+    return flag_understood(m, v)
 
 
 def site_key(site):
@@ -91,6 +126,9 @@ def check(ctx):
             b = r or None
         if not b or b["c"][0] != "const":
             ctx.unrec("R1", "rhs-init", where(inits[0]), f"rhs is not created as n copies of a constant: {show(v)[:120]}")
+        elif b["c"] == ("const", "0.0") and not m.is_n_eqns(b["n"]) and not size_understood(m, b["n"]):
+            # a length computed somewhere the analysis does not follow is not a wrong length
+            ctx.unrec("R1", "rhs-init", where(inits[0]), f"the number of entries of rhs is not understood: {show(simp(b['n']))[:120]}")
         else:
             ctx.check(b["c"] == ("const", "0.0") and m.is_n_eqns(b["n"]), "R1", "rhs-init", where(inits[0]),
                       "rhs = ['0.0'] * n_eqns with n_eqns = max(n_spec + has_thermal, 1)",
@@ -108,7 +146,7 @@ def check(ctx):
             n_other += 1
             report_problems(ctx, "R5", s)
             if not s.problems:
-                ctx.bad("R5", f"{site_key(s)}:writer", where(s), "unclassified store into rhs")
+                ctx.unrec("R5", f"{site_key(s)}:writer", where(s), "unclassified store into rhs")
     ctx.check(True, "R5", "rhs:writers", (FILE, m.func.lineno),
               f"{len(rhs_sites)} stores into rhs classified: " + ", ".join(sorted(s.kind for s in rhs_sites))) if not n_other else None
     # stores into rhs from other functions of the module
@@ -259,11 +297,15 @@ def _r4(ctx, m):
             ctx.unrec("R4", what, (FILE, m.func.lineno), f"`{what}` not reconstructible" if what == "lhs" else "abundance symbol list `y` not reconstructible")
             continue
         bv, body, base, ifs = pm
-        ctx.check(base == m.SPEC and not ifs and body == SYM(bv), "R4", f"{what}-binding", (FILE, m.func.lineno),
-                  f"{what}[i] = '{tail.split('[')[0]}[IDX_<alias of species[i]>]' over the unfiltered species list",
-                  expected=expected, found=show(simp(lv))[:160])
+        okb = base == m.SPEC and not ifs and body == SYM(bv)
+        if not okb and (not_understood(base) or not_understood(body) or any(not_understood(c) for c in ifs)):
+            ctx.unrec("R4", f"{what}-binding", (FILE, m.func.lineno), f"how the entries of `{what}` are computed from the species list is not understood: {show(simp(lv))[:160]}")
+        else:
+            ctx.check(okb, "R4", f"{what}-binding", (FILE, m.func.lineno),
+                      f"{what}[i] = '{tail.split('[')[0]}[IDX_<alias of species[i]>]' over the unfiltered species list",
+                      expected=expected, found=show(simp(lv))[:160])
         # thermal tail
-        if cond is None:
+        if cond is None or x[0] != "const" or not (m.is_has_thermal(cond) or flag_understood(m, cond)):
             ctx.unrec("R4", f"{what}-thermal", (FILE, m.func.lineno), f"how `{what}` gets its temperature entry is not understood: {show(simp(lv))[:120]}")
         else:
             ctx.check(m.is_has_thermal(cond) and x == ("const", tail), "R4", f"{what}-thermal", (FILE, m.func.lineno),
@@ -274,13 +316,20 @@ def _r4(ctx, m):
         ctx.unrec("R4", "fex-zip", (FILE, m.func.lineno), f"how the statements pair lhs with rhs is not understood: {show(fv)[:160]}")
     else:
         ok = False
+        plain = False
         if pr:
             elt, a, b = pr
             want = ("fstr", (("fmt", ("L",), None, -1), ("const", " = "), ("fmt", ("R",), None, -1), ("const", ";")))
             ok = elt == want and b == m.RHS
-        ctx.check(ok, "R4", "fex-zip", (FILE, m.func.lineno),
-                  "fex = [f'{l} = {r};' for l, r in zip(lhs, rhs)] pairs row i of lhs with row i of rhs",
-                  found=show(fv)[:200] if fv else None)
+            # wrong only when the statement text is made of the two paired entries and literal text, and the right-hand entries are
+            # a table this function fills; anything else is a pairing that is not understood
+            plain = elt[0] == "fstr" and all(p_[0] == "const" or (p_[0] == "fmt" and p_[1] in (("L",), ("R",))) for p_ in elt[1]) and (b[0] == "acc" or a[0] == "acc")
+        if fv is None or (pr and not ok and not plain):
+            ctx.unrec("R4", "fex-zip", (FILE, m.func.lineno), f"how the statements pair lhs with rhs is not understood: {show(fv)[:160] if fv else 'fex not found'}")
+        else:
+            ctx.check(ok, "R4", "fex-zip", (FILE, m.func.lineno),
+                      "fex = [f'{l} = {r};' for l, r in zip(lhs, rhs)] pairs row i of lhs with row i of rhs",
+                      found=show(fv)[:200] if fv else None)
     # fex is what ODEContent receives
     rets = [f for f in fl.facts if f.kind == "return"]
     okret = False
@@ -332,11 +381,17 @@ def _r7(ctx, m, rhs_sites):
     for s in wraps:
         report_problems(ctx, "R7", s)
         g_ok = len(s.fact.guards) == 1 and s.fact.guards[0][1] is True and m.is_has_thermal(s.fact.guards[0][0]) and not s.fact.loops
-        ctx.check(g_ok, "R7", "rhs:wrap:guard", where(s), "wrap applied exactly once, under `if has_thermal`",
-                  found="; ".join(show(g)[:60] for g, _ in s.fact.guards))
-        ctx.check(s.row == ("tgas",), "R7", "rhs:wrap:row", where(s), "wrap rewrites row n_spec", found=str(s.row))
+        if not g_ok and any(not (m.is_has_thermal(g) or flag_understood(m, g)) for g, _ in s.fact.guards):
+            # a condition that is not a test of the heating / cooling lists: when the wrap is applied is not understood
+            ctx.unrec("R7", "rhs:wrap:guard", where(s), "the condition under which rhs[n_spec] is rewritten is not understood: "
+                      + "; ".join(show(g)[:60] for g, _ in s.fact.guards))
+        else:
+            ctx.check(g_ok, "R7", "rhs:wrap:guard", where(s), "wrap applied exactly once, under `if has_thermal`",
+                      found="; ".join(show(g)[:60] for g, _ in s.fact.guards))
+        if s.row is not None:       # (a row that is not understood has been reported with the site's problems)
+            ctx.check(s.row == ("tgas",), "R7", "rhs:wrap:row", where(s), "wrap rewrites row n_spec", found=str(s.row))
         lw = lower(s.value)
-        okw = False
+        okw = None
         try:
             holes = [h for h in lw.holes.values()]
             slot = ("sub", m.RHS, m.N_SPEC)
@@ -345,8 +400,13 @@ def _r7(ctx, m, rhs_sites):
                 okw = calg.canon_str(lw.text).equiv(calg.canon_str(f"(gamma - 1.0) * ({hn}) / kerg / npar"))
         except calg.CParseError:
             okw = False
-        ctx.check(okw, "R7", "rhs:wrap:form", where(s), "rhs[n_spec] = (gamma-1)*(rhs[n_spec])/kerg/npar",
-                  expected="(gamma - 1.0) * ( <accumulated> ) / kerg / npar", found=lw.text)
+        if okw is None:
+            # the new text is not `<literal text> <what was accumulated in this row> <literal text>`: a value built elsewhere
+            ctx.unrec("R7", "rhs:wrap:form", where(s), f"the text stored into rhs[n_spec] is not reconstructible around the accumulated terms: {lw.text[:100]} "
+                      f"with {', '.join(show(h)[:60] for h in lw.holes.values())[:160]}")
+        else:
+            ctx.check(okw, "R7", "rhs:wrap:form", where(s), "rhs[n_spec] = (gamma-1)*(rhs[n_spec])/kerg/npar",
+                      expected="(gamma - 1.0) * ( <accumulated> ) / kerg / npar", found=lw.text)
 
 
 def _numdens(ctx):
@@ -408,7 +468,11 @@ def _numdens(ctx):
     reg = ratemodel(ctx.tree).effective_registry("ThermalProcess")
     r = reg.get("particle_number_density")
     okr = r is not None and r["symbol"] == ("const", "npar") and r["value"] == ("const", "GetNumDens(y)")
-    ctx.check(okr, "R7", "npar = GetNumDens(y)", ("naunet/thermalprocess.py", r["line"] if r else 0), "the thermal wrap divides by npar = GetNumDens(y)")
+    if r is None or r["symbol"][0] != "const" or r["value"][0] != "const":
+        ctx.unrec("R7", "npar = GetNumDens(y)", ("naunet/thermalprocess.py", r["line"] if r else 0),
+                  "the registration of the particle number density (symbol / value) is not reconstructible as literals")
+    else:
+        ctx.check(okr, "R7", "npar = GetNumDens(y)", ("naunet/thermalprocess.py", r["line"] if r else 0), "the thermal wrap divides by npar = GetNumDens(y)")
 
 
 def _r6(ctx):
@@ -568,6 +632,11 @@ def _filtered_create(v, fl=None):
     def is_create(x):
         return x[0] == "meth" and x[1] == ("param", "self") and x[2] == "_create_species"
 
+    def bypass(x):
+        """wrong for certain: the species is constructed directly (no pseudo-element filter at all); any other producer (a wrapper
+        of _create_species, a lookup) is a shape that is not understood"""
+        return x[0] == "call" and x[1] == ("global", "Species")
+
     if v[0] in ("ifexp", "phi"):
         a, wa = _filtered_create(v[2], fl)
         b, wb = _filtered_create(v[3], fl)
@@ -584,7 +653,7 @@ def _filtered_create(v, fl=None):
         for f in apps:
             val = simp(f.value)
             if not is_create(val):
-                return False, "elements are not produced by self._create_species(..)"
+                return (False if bypass(val) else None), "elements are not produced by self._create_species(..)"
             conds = [g for gd in f.guards for g in split_guard((simp(gd[0]), gd[1]))]
             if (val, True) not in conds:
                 return False, "no truthiness filter on the created species: a marker token would enter the list as None"
@@ -594,7 +663,7 @@ def _filtered_create(v, fl=None):
         return None, f"reactant/product list assigned from an unrecognised expression"
     bv, body, base, ifs = m
     if not is_create(body):
-        return False, "elements are not produced by self._create_species(..)"
+        return (False if bypass(body) else None), "elements are not produced by self._create_species(..)"
     # `if a and b` is `if a if b`
     conds = [g for c in ifs for g in split_guard((simp(c), True))]
     if (body, True) not in conds:
@@ -627,7 +696,8 @@ def _r8(ctx):
     for label, rel, cfg, fname in CONFIGS:
         ctx.saw(rel)
         # (`{% set %}` variables and the parameters of expanded macros are read as the expressions they stand for)
-        items = J.propagate_sets(J.flatten(ctx.tree, rel, cfg))
+        # ... and a loop over a chain of one-to-one `map` filters is the loop over the base sequence with the filters applied to its variable
+        items = J.unmap_loops(J.propagate_sets(J.flatten(ctx.tree, rel, cfg)))
         sk = Skel(items)
         if not sk.func(fname):
             ctx.missing("R8", f"{label}:{fname}", (rel, 0), f"function {fname} not found in the specialised template")
@@ -637,6 +707,11 @@ def _r8(ctx):
         key = f"{label}:{fname}:for ode.fex"
         if not loops and any(x == FEXSEQ for it_, off in sk.items_in(fname) for x in _subterms(it_)):
             ctx.unrec("R8", key, (rel, 0), f"{fname} uses ode.fex, but not in a `for eq in ode.fex` loop: how the equations are pasted is not understood")
+            continue
+        if not loops:
+            # ode.fex is not mentioned inside the function: pasted through something the analysis does not follow (an include, a
+            # variable bound outside the function): the anchor is gone, which is not evidence of a missing equation
+            ctx.missing("R8", key, (rel, 0), f"{fname} does not mention ode.fex: where the equations are pasted is not found")
             continue
         if len(loops) != 1:
             ctx.bad("R8", key, (rel, loops[0][0][5] if loops else 0),
